@@ -312,11 +312,134 @@ def every_n_shapley(res, rnd, ns) -> None:
                 return
 
 
+def shapley_special_probes(res, rnd, prop: str) -> None:
+    """Three probes on the real code with exact oracles (closed-form Shapley values of additive + unanimity games; the binomially
+    weighted gap for exploitability):
+
+    * tiny magnitude — the same game times 2^-40 (exact): values are positively homogeneous, there is no absolute threshold below which
+      a Shapley value 'is' zero;
+    * re-entrancy — a game whose get_values itself computes Shapley values of ANOTHER game with the same number of players (what
+      MetaGame with the exploitability gap does) before answering;
+    * threads — two threads evaluate different games of the same size at the same time (switch interval 1e-6 s): every result is the
+      one of its own game."""
+    import sys
+    import threading
+    from incomplete_cooperative.coalitions import Coalition
+    from incomplete_cooperative.exploitability import compute_exploitability
+    from incomplete_cooperative.game import IncompleteCooperativeGame as _ICG
+    from incomplete_cooperative.shapley import compute_shapley_value, compute_shapley_value_for_player
+    from math import comb as _comb
+
+    def closed_game(n):
+        N = 2 ** n
+        a = [rnd.randint(-5, 5) for _ in range(n)]
+        Ts = [sum(1 << i for i in rnd.sample(range(n), rnd.randint(2, n))) for _ in range(3)]
+        cT = [rnd.randint(1, 6) for _ in Ts]
+        vals = [float(sum(a[i] for i in range(n) if c >> i & 1) + sum(c_ for T, c_ in zip(Ts, cT) if c & T == T)) for c in range(N)]
+        phi = [Fraction(a[i]) + sum(Fraction(c_, popc(T)) for T, c_ in zip(Ts, cT) if T >> i & 1) for i in range(n)]
+        return vals, phi
+
+    def full(n, vals):
+        g = _ICG(n)
+        g.set_values(np.array(vals, dtype=float))
+        return g
+
+    def close(x, want, scale=1):
+        return abs(Fraction(float(x)) - want * scale) <= Fraction(1, 10 ** 9) * max(abs(want * scale), Fraction(scale) if want == 0 else 0) \
+            or Fraction(float(x)) == want * scale
+
+    # ---- tiny magnitude
+    for n in (3, 5):
+        vals, phi = closed_game(n)
+        sc = Fraction(1, 2 ** 40)
+        g = full(n, [v * float(sc) for v in vals])
+        got = call(lambda: [float(x) for x in compute_shapley_value(g)])
+        res.evaluations += 1
+        res.count(f"{prop}:tiny-magnitude")
+        if got[0] != "ok" or any(not close(x, w, sc) for x, w in zip(got[1], phi)):
+            res.violation("Shapley values of a game times 2^-40 are not 2^-40 times the Shapley values (closed form) beyond float rounding",
+                          {"n": n, "values_times_2^40": vals, "reported": got[1] if got[0] == "ok" else got[1],
+                           "expected_times_2^40": [float(x) for x in phi]}, key=f"{prop}:tiny-magnitude")
+            return
+    # ---- re-entrancy
+    n = 3
+    vals, phi = closed_game(n)
+    other_vals, _ = closed_game(n)
+    other = full(n, other_vals)
+
+    class Reentrant:
+        number_of_players = n
+
+        def __init__(self):
+            self.inner = full(n, vals)
+
+        def get_values(self, coalitions=None):
+            list(compute_shapley_value(other))                 # answers only after a Shapley computation on another game of this size
+            return self.inner.get_values(coalitions)
+
+        def get_value(self, coalition):
+            return self.inner.get_value(coalition)
+
+        def copy(self):                      # the `Game` protocol is checked structurally (isinstance(…, Game))
+            return Reentrant()
+
+        def __add__(self, other_):
+            raise NotImplementedError
+    got = call(lambda: [float(x) for x in compute_shapley_value(Reentrant())])
+    res.evaluations += 1
+    res.count(f"{prop}:re-entrant-game")
+    if got[0] != "ok" or any(not close(x, w) for x, w in zip(got[1], phi)):
+        res.violation("Shapley values of a game whose get_values itself runs a Shapley computation on another game of the same size are "
+                      "not the average marginal contributions", {"n": n, "values": vals, "other_game": other_vals,
+                                                                 "reported": got[1], "expected": [float(x) for x in phi]}, key=f"{prop}:re-entrancy")
+        return
+    # ---- threads
+    n = 6
+    games = [closed_game(n) for _ in range(2)]
+    lohi = []
+    for vals, _ in games:
+        lo = np.array(vals) - np.array([rnd.randint(0, 3) for _ in vals], dtype=float)
+        hi = np.array(vals) + np.array([rnd.randint(0, 3) for _ in vals], dtype=float)
+        lo[0] = hi[0] = 0.0
+        lo[-1] = hi[-1] = vals[-1]
+        g = _ICG(n)
+        g.set_value(float(vals[-1]), Coalition(2 ** n - 1))
+        g.set_lower_bounds(lo)
+        g.set_upper_bounds(hi)
+        sizes = [popc(c) for c in range(2 ** n)]
+        want = float(sum((hi[c] - lo[c]) / _comb(n, sizes[c]) for c in range(2 ** n)))
+        lohi.append((g, want))
+    out = [[], []]
+
+    def work(k):
+        for _ in range(25):
+            out[k].append((float(compute_exploitability(lohi[k][0])), float(compute_shapley_value_for_player(0, full(n, games[k][0])))))
+    old_si = sys.getswitchinterval()
+    sys.setswitchinterval(1e-6)
+    try:
+        ths = [threading.Thread(target=work, args=(k,)) for k in (0, 1)]
+        [t.start() for t in ths]
+        [t.join() for t in ths]
+    finally:
+        sys.setswitchinterval(old_si)
+    res.evaluations += 1
+    res.count(f"{prop}:two-threads")
+    for k in (0, 1):
+        want_e, want_s = lohi[k][1], games[k][1][0]
+        bad = [(e, s_) for e, s_ in out[k] if abs(e - want_e) > 1e-9 * max(1.0, abs(want_e)) or not close(s_, want_s)]
+        if bad:
+            res.violation(f"two threads evaluating different {n}-player games at the same time: {len(bad)} of {len(out[k])} results of thread "
+                          f"{k} are not those of its own game (exploitability {bad[0][0]} vs {want_e}, Shapley {bad[0][1]} vs {float(want_s)})",
+                          {"n": n, "thread": k, "wrong": len(bad)}, key=f"{prop}:threads")
+            return
+
+
 def run_c05(tier, budget, rnd, res, script, post):
     from incomplete_cooperative.coalitions import Coalition
     from incomplete_cooperative.exploitability import MaxGainGame, compute_exploitability
     from incomplete_cooperative.shapley import compute_shapley_value_for_player
     StubGame, StubIncomplete = make_stubs()
+    shapley_special_probes(res, rnd, "C05")
     wide_game_case(res, rnd, "C05")          # the per-player Shapley values are the building block of exploitability
     # large player counts in ASCENDING order within one process (per-process tables that grow with n; coalition ids beyond 2^13):
     # integer bounds, real code only, oracle = the binomially weighted gap (relative tolerance 1e-9)
@@ -729,6 +852,7 @@ def run_c06(tier, budget, rnd, res, script, post):
         scale = float(sum(abs(x) for x in v)) + 1.0
         post.append((len(script) - 1, "float:C06 shapley", r, 1e-9 * scale, {"n": n, "player": i, "values": [rs(x) for x in v]}))
 
+    shapley_special_probes(res, rnd, "C06")
     # LAST, and from the largest player count down: tables that grow with n are then extended by many entries in one call
     every_n_shapley(res, rnd, range(16, 6, -1) if tier == "quick" else range(18, 6, -1))
 
